@@ -147,11 +147,12 @@ def spec_sp_trsv (dt : Int) : List Pre := [
   ⟨5, "U square, order >= 0, NC/Dtype/TRU", fun a => decide (factorU a dt)⟩ ]
 def specInfo_sp_trsv (dt : Int) (a : Args) : Int := firstViolated (spec_sp_trsv dt) a
 /-- where the implemented chain is known to differ from the header (see `argchain_sp_trsv_partial`):
-upper-case letters only; type tags of L and U as documented -/
-abbrev sp_trsv_agrees (dt : Int) (a : Args) : Prop :=
+upper-case letters only (the header also documents the lower-case letters: a LEGAL call is rejected, which is
+outside C18).  The type tags of L and U are tested since "fix: sp_[sdcz]trsv, sp_[sdcz]gemv: test the documented
+Stype/Dtype/Mtype" -/
+abbrev sp_trsv_agrees (_dt : Int) (a : Args) : Prop :=
   a.uplo_ch ≠ lower chL ∧ a.uplo_ch ≠ lower chU ∧ a.trans_ch ≠ lower chN ∧ a.trans_ch ≠ lower chT ∧ a.trans_ch ≠ lower chC ∧
-  a.diag_ch ≠ lower chU ∧ a.diag_ch ≠ lower chN ∧
-  tags a.L_Stype a.L_Dtype a.L_Mtype SLU_SC dt SLU_TRLU ∧ tags a.U_Stype a.U_Dtype a.U_Mtype SLU_NC dt SLU_TRU
+  a.diag_ch ≠ lower chU ∧ a.diag_ch ≠ lower chN
 
 /-! ### sp_gemv — "Stype = NC or NCP; Dtype; Mtype = GE" is documented for A -/
 def spec_sp_gemv (dt : Int) : List Pre := [
@@ -161,8 +162,6 @@ def spec_sp_gemv (dt : Int) : List Pre := [
   ⟨5, "incx is not zero", fun a => decide (a.incx ≠ 0)⟩,
   ⟨8, "incy is not zero", fun a => decide (a.incy ≠ 0)⟩ ]
 def specInfo_sp_gemv (dt : Int) (a : Args) : Int := firstViolated (spec_sp_gemv dt) a
-abbrev sp_gemv_agrees (dt : Int) (a : Args) : Prop :=
-  (a.A_Stype = SLU_NC ∨ a.A_Stype = SLU_NCP) ∧ a.A_Dtype = dt ∧ a.A_Mtype = SLU_GE
 
 /-! ### gsisx: where the implemented chain differs from the header (see `argchain_gsisx_partial`):
 `[sdcz]gsisx` examines the description of B and X even when they have no columns, i.e. it rejects calls
